@@ -66,6 +66,8 @@ class ExplorerScriptSsbDecompiler:
     indent: int
     _line_number: int
     labels_already_printed: list[int] = []
+    # Ids of the labels that jump and call statements were written for.
+    labels_jumped_to: set[int]
     smb: SourceMapBuilder | None
     performance_progress_list_var_name: str
     dungeon_mode_constants: DungeonModeConstants
@@ -101,6 +103,7 @@ class ExplorerScriptSsbDecompiler:
         self.performance_progress_list_var_name = performance_progress_list_var_name
         self.dungeon_mode_constants = dungeon_mode_constants
         self.forever_start_handler_stack = []
+        self.labels_jumped_to = set()
         self.vertices_in_progress = {}
 
     def convert(self) -> tuple[str, SourceMap]:
@@ -108,6 +111,7 @@ class ExplorerScriptSsbDecompiler:
         self._output = ""
         self.indent = 0
         self.labels_already_printed = []
+        self.labels_jumped_to = set()
         self.vertices_in_progress = {}
         self._line_number = 1
         self.smb = SourceMapBuilder()
@@ -153,6 +157,12 @@ class ExplorerScriptSsbDecompiler:
                     self.named_coroutines[r_id] if r_id in self.named_coroutines else None,
                 )
                 RoutineWriteHandler(self, r_id, r_info, r_graph).write_content()
+
+            # Code that is not reachable from the start of its routine is not written. If something still
+            # jumps there (from another routine, or to a label that was optimized away), the output is not valid.
+            assert self.labels_jumped_to.issubset(
+                self.labels_already_printed
+            ), "A label that is jumped to was not written."
 
             return self._output, self.smb.build()
 
@@ -219,10 +229,11 @@ class ExplorerScriptSsbDecompiler:
         ):
             # Loop continue/break
             # Do nothing
-            pass
+            return
         else:
             # Jump as part of a control structure
             self.write_stmnt(f"jump @label_{label_id};")
+        self.labels_jumped_to.add(label_id)
 
     def source_map_add_opcode(self, op_offset: int) -> None:
         """Has to be called BEFORE writing the opcode."""
